@@ -443,6 +443,7 @@ def run_case(case, keep=False):
                              stdout=subprocess.PIPE, stderr=subprocess.PIPE, start_new_session=True)
         timed_out = False
         blocked_in_wait = False
+        blocked_on_foreign = None
         try:
             out, err = p.communicate(stdin_data, timeout=timeout)
         except subprocess.TimeoutExpired:
@@ -456,6 +457,16 @@ def run_case(case, keep=False):
                         blocked_in_wait = f.read().split()[0] == "61"      # wait4: the shell waits for a child
                 except (OSError, IndexError):
                     pass
+            # ... or a program that is neither the shell nor one of the helpers is still running in the session (a mutated
+            # word can name a real interactive program, also inside a command substitution, where the shell reads its output)
+            if timed_out:
+                for q in session_pids(p.pid):
+                    try:
+                        exe = os.readlink("/proc/%d/exe" % q)
+                    except OSError:
+                        continue
+                    if q != p.pid and os.path.realpath(exe) not in (os.path.realpath(CICADA), os.path.realpath(os.path.join(HARNESS_BIN, "vh"))):
+                        blocked_on_foreign = os.path.basename(exe)
             out, err = b"", b""
             for _ in range(50):
                 for q in session_pids(p.pid):
@@ -502,6 +513,7 @@ def run_case(case, keep=False):
             "stderr": err.decode("utf-8", "replace"),
             "timed_out": timed_out,
             "blocked_in_wait": blocked_in_wait,
+            "blocked_on_foreign": blocked_on_foreign,
             "log": read_log(d),
             "wall": time.time() - t0,
             "cwd_root": cwd,
